@@ -1,3 +1,183 @@
-/-! # C17 — property theorems (stub: nothing stated yet) -/
+import SR.Proofs.IdCodec
+import SR.Proofs.RuntimeAccept
+/-!
+# C17 — spawned actors see the same contract over UDP as in the model
+
+Property theorems only.
+
+(a) Codec: `SR/Util/IdCodec.lean` transcribes the two `From` impls of src/actor/spawn.rs
+    (`idOf` = `Id::from(SocketAddrV4)`, `addrOf` = `SocketAddrV4::from(Id)`).
+(b) Event loop: `SR/Runtime/Loop.lean` is the loop of ONE actor thread of `spawn()` as a state
+    machine over an abstract monotone clock; the actor is the environment (an event carries what
+    the handler was given and what it returned), so every theorem holds for ALL actors, message
+    patterns, timer scripts and timings (= all event lists the machine enables).  The ghost logs
+    `calls` (handler invocations), `sent` (`send_to` calls), `recvd` (datagrams taken from the socket)
+    and `hist` (what happened to each timer) are the observables the statements talk about.
+
+PARTIAL with respect to the informal statement (cannot be exhibited by a model): OS timing, socket
+buffering and datagram loss; no upper bound on timer latency is claimed; `send_to` errors are
+ignored by the code, so "emits one datagram" is "calls `send_to` once".
+-/
 namespace SR.C17
+open SR.IdCodec SR.Loop
+
+/-! ## (a) Id <-> IPv4 socket address -/
+
+/-- address -> id -> address is the identity, for every IPv4 address and port -/
+theorem C17_id_addr (a : Addr) (h : a.Valid) : addrOf (idOf a) = a := addrOf_idOf a h
+
+/-- id -> address -> id is the identity on 48-bit ids -/
+theorem C17_addr_id (id : Nat) (h : id < 2 ^ 48) : idOf (addrOf id) = id := idOf_addrOf id h
+
+/-- what the code does above 48 bits: the two high bytes are ignored -/
+theorem C17_high_bits (id : Nat) : addrOf id = addrOf (id % 2 ^ 48) := addrOf_mod id
+
+/-- the two maps land in each other's domain, and the id is the 48-bit number `ip:port`
+(so together with the two round trips: a bijection between valid addresses and 48-bit ids) -/
+theorem C17_codec_range (id : Nat) (a : Addr) (h : a.Valid) :
+    (addrOf id).Valid ∧ idOf a < 2 ^ 48 ∧ idOf a = idSpec a :=
+  ⟨addrOf_valid id, idOf_lt a h, idOf_eq_spec a h⟩
+
+/-- ids that differ only above bit 48 are the same address; ids below 2^48 never collide -/
+theorem C17_addr_inj (i j : Nat) (hi : i < 2 ^ 48) (hj : j < 2 ^ 48) (h : addrOf i = addrOf j) : i = j := by
+  rw [← idOf_addrOf i hi, ← idOf_addrOf j hj, h]
+
+example : addrOf (idOf ⟨1, 2, 3, 4, 5⟩) = ⟨1, 2, 3, 4, 5⟩ := by decide
+example : idOf ⟨127, 0, 0, 1, 3000⟩ = 127 * 2 ^ 40 + 2 ^ 16 + 3000 := by decide
+example : addrOf (2 ^ 63 + 2 ^ 48 + idOf ⟨10, 0, 0, 7, 65535⟩) = ⟨10, 0, 0, 7, 65535⟩ := by decide
+
+/-! ## (b) the runtime loop -/
+
+variable {σ μ τ ρ : Type} [DecidableEq τ] [DecidableEq ρ] [DecidableEq σ]
+
+/-- `on_start` runs once, before anything else: either nothing at all has happened (no handler
+call, no datagram sent or taken, no timer), or the first call is `on_start` and no later one is. -/
+theorem C17_start_first {C : Cfg μ} {es : List (Ev σ μ τ ρ)} {s : St σ μ τ ρ}
+    (h : run C init es = some s) :
+    (s.calls = [] ∧ s.sent = [] ∧ s.recvd = [] ∧ s.ints = [] ∧ s.hist = []) ∨
+    (∃ t out cmds rest, s.calls = .start t out cmds :: rest ∧ ∀ c ∈ rest, c.isStart = false) := by
+  have hi := inv_run (inv_init C) h
+  cases hc : s.calls with
+  | nil => left; obtain ⟨a, b, c, d, _⟩ := hi.quiet hc; exact ⟨rfl, a, b, c, d⟩
+  | cons c rest =>
+    right
+    have ht := hi.thr
+    rw [hc] at ht
+    simp only [Threaded] at ht
+    cases c with
+    | start t out cmds => exact ⟨t, out, cmds, rest, rfl, threaded_some_no_start _ _ ht.2⟩
+    | msg _ _ _ _ _ _ => simp [Call.inSt] at ht
+    | timeout _ _ _ _ _ => simp [Call.inSt] at ht
+    | random _ _ _ _ _ => simp [Call.inSt] at ht
+
+/-- every handler receives the state left by the previous one (and the machine holds the state
+left by the last one) -/
+theorem C17_state_threaded {C : Cfg μ} {es : List (Ev σ μ τ ρ)} {s : St σ μ τ ρ}
+    (h : run C init es = some s) :
+    (∀ pre c1 c2 post, s.calls = pre ++ c1 :: c2 :: post → c2.inSt = some c1.outSt) ∧
+    (∀ pre c, s.calls = pre ++ [c] → s.st = some c.outSt) := by
+  have hi := inv_run (inv_init C) h
+  constructor
+  · intro pre c1 c2 post hc
+    have ht := hi.thr
+    rw [hc] at ht
+    have : ∀ (cur : Option σ) (pre : List (Call σ μ τ ρ)), Threaded cur (pre ++ c1 :: c2 :: post) →
+        c2.inSt = some c1.outSt := by
+      intro cur pre
+      induction pre generalizing cur with
+      | nil => intro h; simp only [List.nil_append, Threaded] at h; exact h.2.1
+      | cons x r ih => intro h; simp only [List.cons_append, Threaded] at h; exact ih _ h.2
+    exact this _ _ ht
+  · intro pre c hc
+    rw [hi.cur, hc, curSt_append]
+
+/-- a timer fires only while armed and no earlier than the lower bound of its latest arming —
+unless the last command on it was a cancel at least `never` (500 years) ago: the code parks a
+cancelled timer instead of removing it (see `C17_cancelled_silent`). `armed k t₀ lo` is recorded
+when `SetTimer(k, lo..hi)` is executed at clock reading `t₀`. -/
+theorem C17_timer_armed {C : Cfg μ} {es : List (Ev σ μ τ ρ)} {s : St σ μ τ ρ}
+    (h : run C init es = some s) {pre post : List (TObs τ)} {k : τ} {t : Nat}
+    (hh : s.hist = pre ++ .fired k t :: post) :
+    (∃ t₀ lo, lastOn k pre = some (.armed k t₀ lo) ∧ t₀ + lo < t) ∨
+    (∃ t₀, lastOn k pre = some (.cancelled k t₀) ∧ t₀ + C.never < t) :=
+  (inv_run (inv_init C) h).fired pre post k t hh
+
+/-- a cancelled timer that is not set again stays silent for 500 years -/
+theorem C17_cancelled_silent {C : Cfg μ} {es : List (Ev σ μ τ ρ)} {s : St σ μ τ ρ}
+    (h : run C init es = some s) {pre mid post : List (TObs τ)} {k : τ} {t₀ t : Nat}
+    (hh : s.hist = pre ++ .cancelled k t₀ :: (mid ++ .fired k t :: post))
+    (hmid : ∀ t₁ lo, TObs.armed k t₁ lo ∉ mid) : t₀ + C.never < t := by
+  have hi := inv_run (inv_init C) h
+  have hf := hi.fired (pre ++ .cancelled k t₀ :: mid) post k t (by rw [hh]; simp)
+  -- the last entry about `k` before the fire lies in `cancelled k t₀ :: mid`
+  have hlast : ∀ o, lastOn k (pre ++ .cancelled k t₀ :: mid) = some o → o ∈ TObs.cancelled k t₀ :: mid :=
+    fun o ho => lastOn_after k pre mid _ o rfl ho
+  have hs := hi.sorted
+  rw [hh, List.pairwise_append] at hs
+  have hs2 := hs.2.1
+  rw [List.pairwise_cons] at hs2
+  rcases hf with ⟨t1, lo, h1, _⟩ | ⟨t1, h1, h2⟩
+  · rcases List.mem_cons.1 (hlast _ h1) with e | hm
+    · cases e
+    · exact absurd hm (hmid t1 lo)
+  · rcases List.mem_cons.1 (hlast _ h1) with e | hm
+    · injection e with _ e; subst e; exact h2
+    · have := hs2.1 _ (List.mem_append_left _ hm)
+      simp only [TObs.time] at this
+      omega
+
+/-- each `on_msg` call corresponds to a datagram taken from the socket, in order: it carries the
+deserialized message and the id derived from the (IPv4) sender address; datagrams that do not
+parse or come from a non-IPv4 source cause no call -/
+theorem C17_msg_faithful {C : Cfg μ} {es : List (Ev σ μ τ ρ)} {s : St σ μ τ ρ}
+    (h : run C init es = some s) :
+    msgCalls s.calls = s.recvd.filterMap (decodeDatagram C) :=
+  (inv_run (inv_init C) h).msgs
+
+/-- each `Send` of a serializable message emits exactly one `send_to(addrOf dst, serialize m)`, in
+command order; nothing else is ever sent (commands still queued are the ones not yet executed) -/
+theorem C17_send_faithful {C : Cfg μ} {es : List (Ev σ μ τ ρ)} {s : St σ μ τ ρ}
+    (h : run C init es = some s) :
+    s.sent ++ s.queue.filterMap (sendOf C) = (allCmds s.calls).filterMap (sendOf C) :=
+  (inv_run (inv_init C) h).sends
+
+/-- the acceptance predicate used for trace validation never rejects a behaviour of the machine:
+the log (handler events) of a run that has executed all its commands is accepted -/
+theorem C17_accept_sound {C : Cfg μ} (hC : C.strict = true) {es : List (Ev σ μ τ ρ)} {s : St σ μ τ ρ}
+    (h : run C init es = some s) (hq : s.queue = []) :
+    accepts C (es.filter isHandler) = true := by
+  obtain ⟨a, ha, _⟩ := accept_sound hC h hq
+  simp [accepts, ha]
+
+/-! ### the hypotheses are satisfiable: a concrete run (start, arm, message, fire, cancel) -/
+
+/-- messages are numbers, serialized as one byte; 255 does not serialize, `[9,9]` does not parse -/
+def exCfg : Cfg Nat :=
+  { id := idOf ⟨127, 0, 0, 1, 3000⟩
+    ser := fun m => if m < 255 then some [m] else none
+    de := fun b => match b with | [m] => some m | _ => none }
+
+def exRun : List (Ev Nat Nat Nat Nat) :=
+  [ .start 10 0 [.set 7 100 200, .send 5 1],
+    .exec 11 42, .exec 12 0,
+    .msg 50 ⟨127, 0, 0, 1, 4000⟩ [3] 0 1 [.send 6 255, .cancel 9],
+    .exec 51 0, .exec 52 0,
+    .drop 60 (.v4 ⟨127, 0, 0, 1, 4000⟩) [9, 9],
+    .idle 100,
+    .fire 160 (.timeout 7) 1 2 [.cancel 7, .set 8 30 30],
+    .exec 161 0, .exec 162 0,
+    .fire 200 (.timeout 8) 2 3 [] ]
+
+example : (run exCfg init exRun).isSome = true := by decide
+example : ((run exCfg init exRun).map (·.hist)) =
+    some [.armed 7 11 100, .cancelled 9 52, .fired 7 160, .cancelled 7 161, .armed 8 162 30, .fired 8 200] := by decide
+example : ((run exCfg init exRun).map (·.sent)) = some [(addrOf 5, [1])] := by decide
+-- a timer cannot fire before its lower bound ...
+example : (run exCfg init (exRun.take 8 ++ [.fire 110 (.timeout 7) 1 2 []])).isSome = false := by decide
+-- ... nor after a cancel ...
+example : (run exCfg init (exRun ++ [.fire 100000 (.timeout 7) 3 4 []])).isSome = false := by decide
+-- ... and a handler cannot be given a stale state
+example : (run exCfg init (exRun.take 8 ++ [.fire 160 (.timeout 7) 0 2 []])).isSome = false := by decide
+example : accepts exCfg (exRun.filter isHandler) = true := by decide
+
 end SR.C17
